@@ -1,6 +1,8 @@
 import Beetswap.Model.Text
+import Beetswap.Model.ServerHandler
 import Driver.NodeIO
 import Driver.CidIO
+import Driver.Monitor
 open Beetswap
 
 def splitAt (bs : List Nat) (cuts : List Nat) : List (List Nat) :=
@@ -42,6 +44,14 @@ def stepPure (toks : List String) : String :=
       | .needMore => "none"
       | .err => "err"
       | .overrun => "overrun"
+  | ["pack", sizes] =>
+    match Text.natList sizes with
+    | none => "bad-op"
+    | some ns =>
+      let blocks : List Proto.Block := ns.map fun n => { pfx := [1, 0x55, 0x12, 0x20], data := List.replicate n 0xcd }
+      let ms := ServerHandler.frames blocks
+      "frames" ++ String.join (ms.map fun m =>
+        s!" {m.payload.length}:{(Varint.enc (Proto.sizeMessage m)).length + Proto.sizeMessage m}")
   | ["chunks", h, cuts] =>
     match Text.unhex h, Text.natList cuts with
     | some bs, some cuts =>
@@ -75,5 +85,23 @@ partial def loop (h : IO.FS.Stream) (out : IO.FS.Stream) (st : DState) : IO Unit
   out.putStrLn o
   loop h out st
 
-def main : IO Unit := do
-  loop (← IO.getStdin) (← IO.getStdout) {}
+/-- `bsdriver monitor <ops file> <impl file>`: evaluate the Spec monitors on a recorded
+implementation trace; one line `viol <property> <line> <text>` per violation. -/
+def monitorMain (opsFile implFile : String) : IO Unit := do
+  let ops := (← IO.FS.readFile opsFile).splitOn "\n"
+  let imp := (← IO.FS.readFile implFile).splitOn "\n"
+  let out ← IO.getStdout
+  let mut st : Driver.Monitor.MState := {}
+  let mut n := 0
+  for (o, i) in ops.zip imp do
+    let (st', vs) := Driver.Monitor.stepMon st o i
+    st := st'
+    for (p, t) in vs do
+      out.putStrLn s!"viol {p} {n} {t}"
+    n := n + 1
+  out.putStrLn s!"monitored {n}"
+
+def main (args : List String) : IO Unit := do
+  match args with
+  | ["monitor", ops, imp] => monitorMain ops imp
+  | _ => loop (← IO.getStdin) (← IO.getStdout) {}
